@@ -407,11 +407,15 @@ func (b *assignmentBuilder) isStructFieldAccessible(structNode bmodel.Node, leaf
 	if !util.IsStructType(structType) {
 		return false
 	}
-	if named, ok := structType.(*types.Named); ok {
-		return !b.isExternalPkg(named.Obj().Pkg()) || ast.IsExported(leafName)
+	if leafName == "_" {
+		// A blank field cannot be referred to.
+		return false
 	}
-	return true
-
+	// go/types applies the rule of the language: an unexported member is visible only from the
+	// package that declares it, whichever type it is reached through (a local type defined
+	// over a struct of another package, an anonymous struct inside a type of another package).
+	obj, _, _ := types.LookupFieldOrMethod(structType, true, b.pkg.Types, leafName)
+	return obj != nil
 }
 
 // addressed reports whether a :skip, :conv, :map or :literal notation names the destination path.
